@@ -13,6 +13,7 @@ import (
 func init() {
 	vpRegister("c06_signsteps", vpH_c06_signsteps)
 	vpRegister("c06_envnames", vpH_c06_envnames)
+	vpRegister("c06_resign", vpH_c06_resign)
 }
 
 // Pipeline variable names are arbitrary strings: the env:: namespacing must
@@ -221,4 +222,80 @@ func vpB2I(b bool) int {
 		return 1
 	}
 	return 0
+}
+
+// Signing a list whose steps already carry signatures (a re-run with another
+// pipeline env or repository, the same key): the outcome is that of signing
+// fresh steps - field lists follow the env given now, and what is signed now
+// is what verifies.
+func vpH_c06_resign() {
+	ctx := context.Background()
+	s := vpSigSigner(1)
+	inner := &pipeline.CommandStep{Command: "c"}
+	steps := pipeline.Steps{inner}
+	if vpBool() {
+		steps = pipeline.Steps{&pipeline.GroupStep{Steps: pipeline.Steps{inner}}}
+	}
+	env1 := map[string]string{}
+	if vpBool() {
+		env1["A"] = "x"
+	}
+	if vpBool() {
+		env1["B"] = "y"
+	}
+	vpAssume(SignSteps(ctx, steps, s, "r", WithEnv(env1)) == nil && inner.Signature != nil)
+
+	env2 := map[string]string{}
+	hasA, hasB := vpBool(), vpBool()
+	vA := vpStr(1, "x-y")
+	if hasA {
+		env2["A"] = vA
+	}
+	if hasB {
+		env2["B"] = "y"
+	}
+	repo2 := "r"
+	if vpBool() {
+		repo2 = "r2"
+	}
+	err := SignSteps(ctx, steps, s, repo2, WithEnv(env2))
+	vpAssert(err == nil && inner.Signature != nil, "signing already-signed steps again succeeds")
+	if err != nil || inner.Signature == nil {
+		return
+	}
+	sig := inner.Signature
+	want := []string{"command", "env"}
+	if hasA {
+		want = append(want, "env::A")
+	}
+	if hasB {
+		want = append(want, "env::B")
+	}
+	want = append(want, "matrix", "plugins", "repository_url")
+	same := len(sig.SignedFields) == len(want)
+	for i := range want {
+		if i < len(sig.SignedFields) && sig.SignedFields[i] != want[i] {
+			same = false
+		}
+	}
+	vpAssert(same, "after re-signing, the signed fields are the mandatory ones plus env::NAME for each variable of the env given now")
+	mk := func() map[string]string {
+		m := map[string]string{}
+		for k, v := range env2 {
+			m[k] = v
+		}
+		return m
+	}
+	vpAssert(Verify(ctx, sig, s, &CommandStepWithInvariants{CommandStep: *inner, RepositoryURL: repo2}, WithEnv(mk())) == nil, "the re-signed step verifies under the env and repository given now")
+	if hasA {
+		m := mk()
+		m["A"] = vA + "!"
+		vpAssert(Verify(ctx, sig, s, &CommandStepWithInvariants{CommandStep: *inner, RepositoryURL: repo2}, WithEnv(m)) != nil, "a changed pipeline variable is refused after re-signing")
+	}
+	if hasB {
+		m := mk()
+		delete(m, "B")
+		vpAssert(Verify(ctx, sig, s, &CommandStepWithInvariants{CommandStep: *inner, RepositoryURL: repo2}, WithEnv(m)) != nil, "a removed pipeline variable is refused after re-signing")
+	}
+	vpAssert(Verify(ctx, sig, s, &CommandStepWithInvariants{CommandStep: *inner, RepositoryURL: repo2 + "x"}, WithEnv(mk())) != nil, "another repository is refused after re-signing")
 }
